@@ -147,6 +147,8 @@ def gen_project(rng, wildcard=0.0, missing_import=0.0):
             if rng.random() < 0.15:
                 annos.append({"name": "Deprecated", "args": None})
             ret = "" if is_ctor else ((use(pick_type(rng, others)) or "void") if rng.random() < 0.8 else "void")
+            if ret not in ("", "void") and rng.random() < 0.12:
+                ret += rng.choice(["[]", "[]", "[][]"])      # an array return type is recorded with its dimensions
             tparams = None
             if kind == "class" and not is_ctor and rng.random() < 0.15:
                 # a generic class method: `<T> T first(List<T> xs)`, `<K, V> V lookup(K k, V v)`
@@ -384,6 +386,8 @@ def view_det(o):
 
 
 def view(o):
+    if isinstance(o, dict) and o.get("unmodelled"):
+        return {"unmodelled": True}
     if isinstance(o, dict) and "nodes" in o:
         return {"nodes": o["nodes"], "identifiers": o.get("identifiers", [])}
     if isinstance(o, dict) and "runs" in o:
@@ -418,9 +422,53 @@ def multi_case(rng):
     return c
 
 
+ANON_SHAPES = [
+    # (interface, its import, return type of the anonymous method, its name, body)
+    ("Runnable", None, "void", "run", "System.out.println(k);"),
+    ("Callable<String>", "java.util.concurrent.Callable", "String", "call", "return \"x\" + k;"),
+    ("Comparator<String>", "java.util.Comparator", "int", "compare", "return k;"),
+    ("Supplier<Integer>", "java.util.function.Supplier", "Integer", "get", "return k;"),
+]
+
+
+def raw_multi_case(rng):
+    """C07 for constructs outside the Lean model: every file has methods that create ANONYMOUS classes with methods of their own
+    (and a class with none); several runs in one process, judged by the statement alone (same file => same entries)"""
+    files, truth = {}, []
+    names = rng.sample(["Alpha", "Beta", "Gamma", "Delta"], rng.choice([2, 3, 4]))
+    for i, nm in enumerate(names):
+        pkg = rng.choice(["com.shop.a", "com.shop.b"])
+        imports, methods = set(), []
+        for j in range(rng.choice([0, 1, 1, 2])):
+            iface, imp, ret, mn, body = rng.choice(ANON_SHAPES)
+            if imp:
+                imports.add(imp)
+            extra = ""
+            if rng.random() < 0.4:
+                extra = "\n            public String toString() {\n                return \"%s%d\";\n            }" % (nm, j)
+            sig = "int compare(String a, String b)" if mn == "compare" else "%s %s()" % (ret, mn)
+            methods.append("    public %s make%d(final int k) {\n        return new %s() {\n            public %s {\n                %s\n            }%s\n        };\n    }\n" % (
+                iface, j, iface, sig, body, extra))
+        methods.append("    public int plain(int k) {\n        return k + %d;\n    }\n" % i)
+        text = "package %s;\n\n%s\npublic class %s {\n%s}\n" % (pkg, "".join("import %s;\n" % x for x in sorted(imports)), nm, "\n".join(methods))
+        path = "src/main/java/%s/%s.java" % (pkg.replace(".", "/"), nm)
+        files[path] = text
+        truth.append({"path": path, "pkg": pkg, "name": nm, "kind": "class"})
+    paths = sorted(files)
+    runs = [list(paths), list(reversed(paths)), [rng.choice(paths)], list(paths)]
+    perm = list(paths)
+    rng.shuffle(perm)
+    runs.append(perm)
+    runs.append([p for p in paths if rng.random() < 0.6] or paths[:1])
+    rng.shuffle(runs)
+    return {"op": "fullmulti", "files": files, "units": [], "identKeys": [t["pkg"] + "." + t["name"] for t in truth], "truth": truth, "runs": runs, "unmodelled": True}
+
+
 def gen_c07(rng, tier):
     nsh, per = (16, 12) if tier == "quick" else (32, 250)
-    return [[multi_case(rng) for _ in range(per)] for _ in range(nsh)]
+    shards = [[multi_case(rng) for _ in range(per)] for _ in range(nsh)]
+    shards.append([raw_multi_case(rng) for _ in range(10 if tier == "quick" else 150)])
+    return shards
 
 
 def oracle_c07(case, out, raw):
@@ -529,6 +577,48 @@ ASSUMPTIONS = ["generated Java is legally scoped (a local may hide a field, not 
 TRUSTED = ["vlib/javagen.py renderer, its ground truth and the listener event stream it derives", "ANTLR Java parser and tree walker"]
 
 
+NESTED_TYPES = [
+    "    public static class Entry {\n        int n;\n    }\n",
+    "    static class Entry {\n        int n;\n\n        int size() {\n            return n;\n        }\n    }\n",
+    "    interface Lookup {\n        int at(int k);\n    }\n",
+    "    private class Slot {\n    }\n",
+]
+
+
+def raw_nested_case(rng):
+    """C02 for a construct outside the Lean model: a NAMED nested type written somewhere in a class that calls through its field.
+    The receiver of `field.m()` is the field's declared type wherever the nested type stands; judged by the statement alone."""
+    repo = "package com.acme.repo;\n\npublic class BookRepository {\n    public int load(int k) {\n        return k;\n    }\n\n    public void save(int k) {\n    }\n}\n"
+    parts = {
+        "field": "    private BookRepository repository;\n",
+        "find": "    public int find(int k) {\n        return repository.load(k);\n    }\n",
+        "keep": "    public void keep(int k) {\n        repository.save(k);\n    }\n",
+    }
+    order = ["field", "find", "keep"]
+    for _ in range(rng.choice([0, 1, 1, 2])):
+        order.insert(rng.randrange(len(order) + 1), "nested%d" % rng.randrange(len(NESTED_TYPES)))
+    body = "\n".join(parts[o] if o in parts else NESTED_TYPES[int(o[6:])] for o in order)
+    text = "package com.acme.app;\n\nimport com.acme.repo.BookRepository;\n\npublic class Shelf {\n" + body + "}\n"
+    lines = text.split("\n")
+    fns = []
+    for name, callee in (("find", "load"), ("keep", "save")):
+        dl = next(i for i, l in enumerate(lines) if (" %s(int k) {" % name) in l and "public" in l)
+        cl = next(i for i, l in enumerate(lines) if ("repository.%s(" % callee) in l)
+        fns.append({"name": name, "fullStartLine": dl + 1, "calls": [{"kind": "call", "name": callee, "line": cl + 1, "col": lines[cl].index(callee), "recv": "repository",
+                                                                       "meta": {"recvType": "BookRepository", "recvVar": "repository"}}]})
+    files = {"src/main/java/com/acme/repo/BookRepository.java": repo, "src/main/java/com/acme/app/Shelf.java": text}
+    truth = [{"path": "src/main/java/com/acme/app/Shelf.java", "pkg": "com.acme.app", "name": "Shelf", "kind": "class", "imports": ["com.acme.repo.BookRepository"],
+              "functions": fns, "unit": {"_scope": {"BookRepository": "com.acme.repo"}}}]
+    return {"op": "full", "files": files, "units": [], "identKeys": ["com.acme.repo.BookRepository", "com.acme.app.Shelf"], "truth": truth, "unmodelled": True,
+            "cli": rng.random() < 0.1}
+
+
+def gen_c02(rng, tier):
+    shards = gen(rng, tier)
+    shards.append([raw_nested_case(rng) for _ in range(24 if tier == "quick" else 300)])
+    return shards
+
+
 def make(prop):
     class M:
         pass
@@ -537,7 +627,7 @@ def make(prop):
     m.FAMILY = FAMILY
     m.GEN_GROUPS = GEN_GROUPS + (["Ident", "Call", "Api", "Bs"] if prop == "C07" else [])
     m.PROPS = [prop] + (["C01Ident"] if prop in ("C01", "C07") else []) + (["C01Iface"] if prop == "C01" else [])
-    m.gen = gen_c07 if prop == "C07" else gen
+    m.gen = gen_c07 if prop == "C07" else gen_c02 if prop == "C02" else gen
     m.view = view
     m.view_det = view_det
     m.nontrivial = nontrivial
